@@ -59,6 +59,12 @@ CLAIMED["C02"] = dict(
    note="Not decided here (continuous intermediates, see DESIGN): weights of the Gaussian loop-hafnian chain, the torontonian chain and the inverse-CDF homodyne sampler in Fock space; samplers for partially distinguishable photons (uniform overlap, Gram matrix, with loss and post-selection) are compared with the law of PqDistinguish.tla.",
    technique="TLA+ probabilistic state machine of the sampler, law = Born proved by TLC per instance; exact implementation law by exhaustive enumeration of RNG decisions compared with the TLC-exported law",
    engine="PqSampler")
+CLAIMED["C09"] = dict(
+   category="model_checking", design_ref="§3 C09",
+   text="Every behaviour TLC exports from the exact reference semantics (PqOptics: passive and Kerr-type gates on number states; PqGaussian: lattice Gaussian gates) is executed under every connector the simulator accepts (NumPy, TensorFlow, JAX on PureFock; NumPy, JAX on Gaussian and Passive), eagerly and compiled with tf.function / jax.jit with the gate parameters as traced arguments, and each result (state vector with phases, Fock probabilities, mean and covariance, detection probabilities) is compared with the exact state of the specification at 1e-8; connectors that all equal the exact state equal each other. Active gates in Fock space (no exact lattice representation; they go through each connector's polar/logm/Takagi shims) are compared across connectors against the NumPy result in the regime where truncation is below 1e-8.",
+   note="Programs that cannot be traced by tf.function/jax.jit (they raise at trace time, e.g. MachZehnder under tf.function) are counted, not judged; fermionic simulators under JAX are not covered yet.",
+   technique="behaviours of the exact TLA+ reference semantics replayed under every connector (eager and compiled) and compared with the exact state",
+   engine="PqOptics, PqGaussian")
 CLAIMED["C05"] = dict(
    category="model_checking", design_ref="§3 C05",
    text="PqOptics.tla models loss as the unitary dilation (beamsplitter onto a fresh ancilla) and post-selection as projection; TLC checks NormIsOne, NormAtMostOne, ChainRule and SeqEqJoint on every reachable spec state and exports exact states. Replay on PassiveSimulator: get_particle_detection_probability, fock_probabilities_map, marginals on every mode subset, state_vector and norm against the marginal of the exact dilation (1e-9), and the dilation program itself on PureFockSimulator amplitude by amplitude.",
